@@ -5,15 +5,23 @@ code -> spec : every random tree is packed (from disk and from a tar stream), th
                owner, symlink target, xattrs, device numbers, content and modification time. Deviations of the unchanged code are known findings.
 """
 import vlib
+from checks import cli_common
 from checks import c13
 
 
 def run(rep, tier, seed):
     c13.drive(rep, "C05", tier, seed, True)
+    # the command glue: the real binary end to end, judged by CliOutcome.tla
+    cli_common.run(rep, vlib.workdir("C05-cli"), seed, "tar", tier == "thorough")
     rep.rule = ("case = random tree (as for C13) x {catar from disk, catar from tar stream} x {untar to disk, untar through caidx + store, tar-stream output}; "
                 "packing twice; distinct = different element/unpack sequence; non-trivial = >= 3 nodes")
     rep.assumptions = ["SHA256 digest mode and the mtree output format are not exercised", "runs as root on a filesystem with user xattrs (reported in coverage.xattrs_and_devices_exercised)"]
 
 
 def replay(path):
+    import json as _json
+    _d = _json.load(open(path))
+    _r = cli_common.replay_if_cli(_d, vlib.workdir("C05-cli-replay"))
+    if _r is not None:
+        return _r
     return c13.replay(path)
